@@ -170,6 +170,129 @@ def run_e2e(ctx, g, unit, per, n, m, kind, parsers=('earley', 'lalr')):
                 ctx.violation('e2e-count', {'grammar': g, 'parser': parser, 'k': k, 'text': text, 'n': n, 'm': m}, True, bad)
 
 
+
+# --- (d) operators inside terminals: compiled regexp vs an independent matcher of the expression tree ---------
+SPECIAL = 'ab()[]|.*+?-^$xy{}'
+
+
+def gen_texpr(rng, depth=0):
+    r = rng.random()
+    if depth >= 3 or r < 0.35:
+        n = rng.randint(1, 2)
+        return ('lit', ''.join(rng.choice(SPECIAL) for _ in range(n)))
+    if r < 0.55:
+        return ('seq', [gen_texpr(rng, depth + 1) for _ in range(rng.randint(2, 3))])
+    if r < 0.75:
+        return ('alt', [gen_texpr(rng, depth + 1) for _ in range(rng.randint(2, 3))])
+    op = rng.choice(['?', '*', '+', '~'])
+    e = gen_texpr(rng, depth + 1)
+    if op == '~':
+        lo = rng.randint(0, 3)
+        hi = lo if rng.random() < 0.4 else lo + rng.randint(0, 2)
+        return ('rep', e, lo, hi)
+    return ('rep', e, 0 if op in '?*' else 1, 1 if op == '?' else None)
+
+
+def render_texpr(e, top=False):
+    k = e[0]
+    if k == 'lit':
+        return '"%s"' % e[1].replace('\\', '\\\\').replace('"', '\\"')
+    if k == 'seq':
+        return '(' + ' '.join(render_texpr(x) for x in e[1]) + ')'
+    if k == 'alt':
+        return '(' + ' | '.join(render_texpr(x) for x in e[1]) + ')'
+    _, x, lo, hi = e
+    inner = render_texpr(x)
+    if x[0] == 'rep':
+        inner = '(' + inner + ')'
+    if hi is None:
+        return '%s%s' % (inner, '*' if lo == 0 else '+')
+    if (lo, hi) == (0, 1):
+        return inner + '?'
+    return '%s~%d' % (inner, lo) if lo == hi else '%s~%d..%d' % (inner, lo, hi)
+
+
+def ends(e, s, i):
+    """set of j such that e matches s[i:j]"""
+    k = e[0]
+    if k == 'lit':
+        return {i + len(e[1])} if s.startswith(e[1], i) else set()
+    if k == 'seq':
+        cur = {i}
+        for x in e[1]:
+            cur = {j2 for j in cur for j2 in ends(x, s, j)}
+        return cur
+    if k == 'alt':
+        out = set()
+        for x in e[1]:
+            out |= ends(x, s, i)
+        return out
+    _, x, lo, hi = e
+    out = set()
+    cur = {i}
+    n = 0
+    seen = set()
+    while cur and (hi is None or n <= hi):
+        if n >= lo:
+            out |= cur
+        nxt = {j2 for j in cur for j2 in ends(x, s, j)}
+        n += 1
+        if hi is None:
+            nxt -= seen
+            seen |= nxt
+            if n > len(s) + lo + 2:
+                break
+        cur = nxt
+    return out
+
+
+def sample_word(e, rng):
+    k = e[0]
+    if k == 'lit':
+        return e[1]
+    if k == 'seq':
+        return ''.join(sample_word(x, rng) for x in e[1])
+    if k == 'alt':
+        return sample_word(rng.choice(e[1]), rng)
+    _, x, lo, hi = e
+    n = rng.randint(lo, (lo + 2) if hi is None else hi)
+    return ''.join(sample_word(x, rng) for _ in range(n))
+
+
+def terminal_stream(ctx):
+    import re
+    from lark import Lark
+    rng = ctx.rng
+    for _ in range(ctx.scale(150, 1500) * (3 if ctx.widen else 1)):
+        e = gen_texpr(rng)
+        if 0 in ends(e, '', 0):
+            continue        # terminal may match the empty string: outside the statement (lark rejects it)
+        src = 'start: T\nT: %s\n' % render_texpr(e)
+        try:
+            p = Lark(src, parser='lalr')
+        except Exception as ex:
+            ctx.violation('terminal-construct', {'grammar': src, 'error': repr(ex)[:200]}, True,
+                          'grammar with operators inside a terminal failed to build: %r' % (ex,))
+            continue
+        td = [t for t in p.terminals if t.name == 'T'][0]
+        rx = re.compile(td.pattern.to_regexp())
+        words = {sample_word(e, rng) for _ in range(4)}
+        for w in list(words):
+            if w:
+                k = rng.randrange(len(w))
+                words.add(w[:k] + w[k + 1:])
+                words.add(w[:k] + rng.choice(SPECIAL) + w[k:])
+                words.add(w + w[-1])
+        for w in sorted(words):
+            want = len(w) in ends(e, w, 0)
+            got = rx.fullmatch(w) is not None
+            ctx.count('terminal-ops', key=(src, w), accepted=got)
+            if want != got:
+                ctx.violation('terminal-count', {'grammar': src, 'word': w, 'regexp': td.pattern.to_regexp(),
+                                                 'expected_match': want}, True,
+                              'terminal %s %s %r' % (render_texpr(e), 'must match' if want else 'must not match', w))
+
+
 def correspond(ctx):
     rng = ctx.rng
     wide = 3 if ctx.widen else 1
@@ -266,10 +389,18 @@ def correspond(ctx):
     # (c) end to end ---------------------------------------------------------------------
     for (g, unit, per, n, m, kind) in e2e_cases(rng, ctx):
         run_e2e(ctx, g, unit, per, n, m, kind)
+    # (d) operators inside terminals -------------------------------------------------------
+    terminal_stream(ctx)
 
 
 def replay(ctx, case):
     w = case['witness']
+    if 'word' in w:
+        import re
+        from lark import Lark
+        p = Lark(w['grammar'], parser='lalr')
+        td = [t for t in p.terminals if t.name == 'T'][0]
+        return (re.fullmatch(td.pattern.to_regexp(), w['word']) is not None) != w['expected_match']
     if 'grammar' in w and 'text' in w:
         from lark import Lark
         from lark.exceptions import UnexpectedInput
